@@ -34,13 +34,18 @@ Build == /\ vPh = 0 /\ vPh' = 1 /\ vVer' = vVer /\ vKind' = "encoded"
               LET zn == [tr |-> trs, ty |-> [i \in 1..Len(tm) |-> [off |-> tm[i].off, dst |-> tm[i].dst]], lp |-> lps]
                   ly == [tab |-> Tab, idx |-> [i \in 1..Len(tm) |-> tm[i].ix], isstd |-> ind[1], isut |-> ind[2], footer |-> IF vVer = 0 THEN <<>> ELSE ft]
               IN vZ' = zn /\ vLay' = ly /\ vBytes' = Encode(vVer, OtherZone, OtherLay, zn, ly)
+Build1 == /\ vPh = 0 /\ vPh' = 1 /\ vVer' = vVer /\ vKind' = "encoded"          \* the smallest designation table: a single NUL (no designation at all)
+          /\ \E ft \in {<<>>} :
+              LET zn == [tr |-> <<<<3, 0>>>>, ty |-> <<[off |-> -7, dst |-> 1]>>, lp |-> <<>>]
+                  ly == [tab |-> <<0>>, idx |-> <<0>>, isstd |-> <<>>, isut |-> <<>>, footer |-> ft]
+              IN vZ' = zn /\ vLay' = ly /\ vBytes' = Encode(vVer, OtherZone, OtherLay, zn, ly)
 \* corruptions of an encoded file: every truncation; one byte of the header or body changed
 Corrupt == /\ vPh = 1 /\ Len(vBytes) % CMod = CRem /\ vPh' = 2 /\ UNCHANGED <<vVer, vZ, vLay>>
            /\ \/ \E n \in 0..(Len(vBytes) - 1) : vBytes' = SubSeq(vBytes, 1, n) /\ vKind' = "truncated"
               \/ \E p \in 1..Len(vBytes) : \E nb \in {0, 1, 2, 50, 51, 255, (vBytes[p] + 1) % 256} :
                    nb # vBytes[p] /\ vBytes' = [vBytes EXCEPT ![p] = nb] /\ vKind' = "byte-changed"
               \/ vBytes' = vBytes \o <<0>> /\ vKind' = "byte-appended"
-Next == Build \/ Corrupt
+Next == Build \/ Build1 \/ Corrupt
 Spec == Init /\ [][Next]_vars
 
 \* the zone in wire shape, as the decoder must return it
